@@ -189,6 +189,25 @@ def gen_sheet_import(rng, cal_spec) -> dict:
     return {"kind": "sheet_import", "par": par, "variant": rng.randrange(2), "start_only": rng.random() < 0.25, "cols": cols}
 
 
+def gen_sheet_series(rng, cal_spec) -> dict:
+    """date cells the library writes, in any order and with REPEATED periods inside a block: the imported series keeps the
+    last row written for a period (model: CodecsExt2.surviving_rows)"""
+    import irispie as ir  # noqa
+    par = rng.choice([0, 1])
+    fm = 0 if par == 0 else rng.randint(1, 3)
+    cols = []
+    for _ in range(rng.randint(1, 3)):
+        f = rng.choice([1, 2, 4, 12, 365] + ([0] if par == 0 else []))
+        base = mk_py(rand_spec(rng, freq=f, lo=2, hi=9900, sloppy=0))
+        n = rng.randint(2, 7)
+        offs = [rng.randrange(0, rng.choice([2, 3, 5, 9])) for _ in range(n)]
+        cells = [fmt_text(ir, fm, base + o) for o in offs]
+        if n > 2 and rng.random() < 0.2:
+            cells[rng.randrange(1, n)] = ""
+        cols.append((f, cells))
+    return {"kind": "sheet_series", "par": par, "variant": rng.randrange(2), "start_only": False, "cols": cols}
+
+
 def run_sheet_import(c, work):
     import irispie as ir
 
